@@ -105,7 +105,7 @@ def _fragments(ctx, m, g):
                       'fragment `%s` reaches exec without passing through repr()' % t, file=F, line=n.lineno,
                       engine='E10')
     ctx.count('fragments reaching exec', n_sites)
-    ctx.floor('fragments reaching exec', n_sites, 10)
+    ctx.floor('fragments reaching exec', n_sites, 8)
 
 
 def _flatten_add(e):
